@@ -147,7 +147,8 @@ partial def declOfJson (j : Json) : Except String FieldDecl := do
       immutable := ← optBool j "immutable" false
       accepts := ← strList j "accepts"
       inline := ← optBool j "inline" false
-      immFields := ← strList j "immFields" }
+      immFields := ← strList j "immFields"
+      defOrder := ← strList j "defOrder" }
     let fields ← (← kvList j "fields").mapM fun (k, d) => do pure (k, ← declOfJson d)
     let defaults ← (← kvList j "defaults").mapM fun (k, d) => do pure (k, ← valOfJson d)
     pure (.struct c fields defaults)
